@@ -30,7 +30,16 @@ namespace bloc
 TUPExpression::TUPExpression(std::vector<Expression*>&& args, Context& ctx) : BuiltinExpression(FUNC_TUP, std::move(args))
 {
   for (const Expression * e : _args)
-    _decl.push_back(e->type(ctx));
+  {
+    const Type& arg_type = e->type(ctx);
+    /* the structure is unknown until all items are qualified: tuple opaque */
+    if (arg_type == Type::NO_TYPE)
+    {
+      _decl.clear();
+      break;
+    }
+    _decl.push_back(arg_type);
+  }
   _type = _decl.make_type(0);
 }
 
